@@ -283,7 +283,11 @@ def _decide(args, P, seed, scratch, t0):
         else:
             viol.append(fl)
     replay_dir = os.path.join(VERIF, 'evidence', 'replays')
+    printed_known = set()
     for k, fl in known_hit:
+        if id(k) in printed_known:
+            continue
+        printed_known.add(id(k))
         note = ''
         rp = k.get('replay')
         if rp:
